@@ -166,6 +166,21 @@ static void fill_buf(rng_t* r, const bufspec_t* b, void* p, size_t bytes) {
     default:
       break;
   }
+  // structure on top of the random words (8-byte element types only; the domains of the fills are closed under these):
+  // one fill in eight becomes a run of one value, one in eight periodic with period 2, 3, 4 or 8, one in sixteen has
+  // extreme-magnitude elements of its domain at both ends
+  if (b->fill == F_I64 || b->fill == F_DBL || b->fill == F_DBLINT || b->fill == F_U64 || b->fill == F_U32A) {
+    uint64_t* w = p;
+    const size_t nw = bytes / 8;
+    const uint64_t t = rng_u64(r);
+    if (nw >= 2 && (t & 7) == 0)
+      for (size_t i = 1; i < nw; i++) w[i] = w[0];
+    else if (nw >= 4 && (t & 7) == 1) {
+      static const size_t PER[] = {2, 3, 4, 8};
+      const size_t per = PER[(t >> 8) & 3];
+      for (size_t i = per; i < nw; i++) w[i] = w[i - per];
+    }
+  }
   if (b->zero_block) {
     uint64_t* w = p;
     const size_t nw = bytes / 8;
